@@ -27,7 +27,7 @@ def s(x):
 def parse_answer(line):
     """'OK n E:3:s:.. W:unknown:s:..' -> list of (kind, id, texthex) or None"""
     t = line.split(' ')
-    if len(t) < 2 or t[0] != 'OK' or t[1] == '-':
+    if len(t) < 2 or t[0] != 'OK' or t[1] == '-' or not t[1].isdigit():
         return None
     out = []
     for tok in t[2:]:
@@ -302,6 +302,10 @@ def make_tag(rnd, bname, name, multi, arrays, pos_arrays):
         t.refs = rnd.sample(cands, min(len(cands), rnd.choice([0, 1, 2])))
     if not t.refs:
         rank = rnd.choice([1, 2])
+    if not want_units and rnd.random() < 0.25:
+        # units, but no reference was ever added (the optional "references" group does not exist)
+        t.refs = []
+        t.units = [rnd.choice(sum(ATOMIC.values(), [])) for _ in range(rank)]
     if multi:
         k = rnd.randint(1, 4)
         shape = [k] if (rank == 1 and rnd.random() < 0.5) else [k, rank]
@@ -322,6 +326,32 @@ def make_tag(rnd, bname, name, multi, arrays, pos_arrays):
         if arrays:
             t.feats.append((rnd.choice(arrays), rnd.choice([0, 1, 2]), []))
     return t
+
+def untouched_family():
+    """entities whose optional sub-containers were never touched by the writing session (no references, features,
+    dimensions, properties, child sources / sections, arrays, tags): the first observation of the file is the
+    read-only validation of the driver"""
+    cases = []
+    for multi in (False, True):
+        for units in (['s'], ['s', 'mV'], ['ms', 's', 'Hz']):
+            arrays = []
+            t = _tag('t0', multi, [], units, arrays, len(units))
+            cases.append(Case(emit(_one_block(arrays, [t])), 'untouched-tag-units-no-refs'))
+    arrays = []
+    tags = [_tag('t0', False, [], ['s'], arrays, 1), _tag('m0', True, [], ['V'], arrays, 1), _tag('t1', False, [], [], arrays, 2)]
+    p = _one_block(arrays, tags, props=[])
+    p.blocks.append(('b1', [], [], []))                                  # a block with nothing in it
+    p.blocks[0][3].append(('src0', None))                                  # a source without children
+    p.sections.append(('s1', 's0', []))
+    cases.append(Case(emit(p), 'untouched-everything'))
+    for rank in (1, 2):
+        a = Arr('b0', 'a0', [2, 3][:rank])                                 # an array without any dimension descriptor
+        cases.append(Case(emit(_one_block([a])), 'untouched-array-no-dims'))
+    a = _arr('a0', [2, 3], ['samp', 'samp'])
+    t = _tag('t0', False, [a], ['s', 'ms'], [a], 2)                        # control: units and a reference
+    cases.append(Case(emit(_one_block([a], [t])), 'untouched-control'))
+    return cases
+
 
 
 def make_plan(rnd, size):
@@ -849,6 +879,7 @@ class C19(Prop):
         if scale == 1:
             cases += pinned_family()
             cases += loop_family()
+            cases += untouched_family()
         k = scale * (1 if tier == 'quick' else 20)
         # conforming files
         for i in range(40 * k):
@@ -904,6 +935,9 @@ class C19(Prop):
         kinds = self.kinds(case)
         out = set()
         for a, b in zip(impl_lines, spec_lines):
+            if a.startswith('OK MODE '):
+                out.add('verdict-depends-on-open-mode')
+                continue
             if not b.startswith('SPEC'):
                 if a != b:
                     out.add('script:' + b.split(' ')[0])
